@@ -62,11 +62,11 @@ def run(ctx):
     # ---- M: the specification
     runs = [("trees", "Props_%s.cfg" % tier, None)]
     if not ctx.quick:
-        runs.append(("grow", "PropsGrow_thorough.cfg", 4000))
+        runs.append(("grow", "PropsGrow_thorough.cfg", 300))     # per worker
     runs.append(("sites", "PropsSites_%s.cfg" % tier, None))
     outs = {}
     for label, cfg, sim in runs:
-        r = ctx.tlc("MCProps", cfg, workers=workers, timeout=3000, xmx="8g",
+        r = ctx.tlc("MCProps", cfg, workers=4 if sim else workers, timeout=3000, xmx="8g",
                     simulate=sim, depth=9 if sim else None, coverage=not sim)
         if r.violated:
             ctx.spec_violation(r, "Props.tla (%s): %s violated by the transcription of the code"
